@@ -376,6 +376,19 @@ func runCrash(t *testing.T, rc *RunCtx) {
 	prev := runtime.GOMAXPROCS(procs)
 	defer runtime.GOMAXPROCS(prev)
 	cfg := SchedCfg{StayBias: []float64{0, 0.4, 0.8}[ch.Pick(3, 0)], MaxSteps: 4000, StopOnViolation: true}
+	// A quarter of the runs: storage reads and writes fail now and then (a request that meets a failure may fail;
+	// nothing it leaves behind may weaken what a later incarnation knows about signatures already released).
+	if ch.Pick(4, 0) == 3 {
+		den := []int{6, 12, 24}[ch.Pick(3, 0)]
+		cfg.Fault = func(s *Sched, p *Park) Resume {
+			if p.Kind == KPoint && ch.Chance(1, den) {
+				rc.Stats.Inc("fault_store-"+p.Label, 1)
+				return Resume{Err: ErrInjected, Fault: "store-" + p.Label}
+			}
+			return Resume{}
+		}
+		rc.Stats.Inc("runs_with_transient_storage_errors", 1)
+	}
 	cfg.Invariant = func(s *Sched) {
 		if c.inst != nil {
 			c.invariant(s)
